@@ -668,3 +668,79 @@ func funcGroup(fn *ssa.Function) []*ssa.Function {
 	add(fn, 0)
 	return out
 }
+
+// originValue resolves a value to where it was introduced, independent of local
+// names: loads of single-store local cells are looked through (spilled
+// parameters, `x := y`), and a free variable of a closure is resolved to the
+// value (or the content of the cell) it was bound to in the enclosing function.
+// The result is typically a *ssa.Parameter of an enclosing function, a call, or
+// an Alloc that is written more than once.
+func originValue(v ssa.Value) ssa.Value {
+	for d := 0; d < 16 && v != nil; d++ {
+		switch x := v.(type) {
+		case *ssa.UnOp:
+			if x.Op != token.MUL {
+				return v
+			}
+			switch x.X.(type) {
+			case *ssa.Alloc, *ssa.FreeVar:
+				return originCell(x.X, 0)
+			}
+			return v
+		case *ssa.ChangeType:
+			v = x.X
+		default:
+			return v
+		}
+	}
+	return v
+}
+
+// originCell: the origin of the content of a local variable given by its address.
+func originCell(addr ssa.Value, depth int) ssa.Value {
+	if depth > 8 {
+		return addr
+	}
+	switch a := addr.(type) {
+	case *ssa.Alloc:
+		st := storesTo(a)
+		if len(st) != 1 {
+			return a
+		}
+		return originValue(st[0].Val)
+	case *ssa.FreeVar:
+		if b := freeVarBinding(a); b != nil {
+			return originCell(b, depth+1)
+		}
+	}
+	return addr
+}
+
+// freeVarBinding: the value a closure's free variable is bound to at the (single) MakeClosure site.
+func freeVarBinding(fv *ssa.FreeVar) ssa.Value {
+	fn := fv.Parent()
+	if fn == nil || fn.Parent() == nil {
+		return nil
+	}
+	idx := -1
+	for i, f := range fn.FreeVars {
+		if f == fv {
+			idx = i
+		}
+	}
+	if idx < 0 {
+		return nil
+	}
+	var bound ssa.Value
+	n := 0
+	allInstrs(fn.Parent(), func(in ssa.Instruction) {
+		if mc, ok := in.(*ssa.MakeClosure); ok && mc.Fn == ssa.Value(fn) && idx < len(mc.Bindings) {
+			bound = mc.Bindings[idx]
+			n++
+		}
+	})
+	if n != 1 {
+		return nil
+	}
+	return bound
+}
